@@ -488,6 +488,15 @@ def _check(prop, tier, seed, tmp, t0):
                         reproduced = False
             if reproduced:
                 break
+            if race and desc is not None and int(desc.get("run", -1)) not in skipped:
+                # The death did not reproduce. When the log shows the race runtime's own crash (it is
+                # timing dependent), do not repeat the batch: go on behind the run it happened in.
+                try:
+                    died = open(os.path.join(tmp, "log_%d" % i)).read()
+                except OSError:
+                    died = ""
+                if "maybeRunChan" in died or "ThreadSanitizer: CHECK failed" in died or "__tsan" in died:
+                    skipped.append(int(desc.get("run", -1)))
             shutil.copy(os.path.join(tmp, "log_%d" % i), os.path.join(tmp, "log_%d.first" % i))
             argv, env_i, lp = jobs[i]
             if skipped:
